@@ -26,6 +26,10 @@ DEFS = [
     ("neg_loop", "c(X) :- g(X). c(X) :- f(X). k(X) :- not c(X), d(X). b(X,Y) :- d(X), e(Y), not k(X).", True),
     ("pos_loop", "c(X) :- g(X). c(X) :- f(X). b(X,Y) :- d(X), e(Y), c(X).", True),
     ("fact_and_rule", "b(1,1). b(X,Y) :- d(X), e(Y).", False),
+    ("rule_and_fact", "b(X,Y) :- d(X), e(Y). b(1,1).", False),
+    ("two_diff_rev", "b(X,Y) :- f(X), e(Y). b(X,Y) :- d(X), e(Y).", False),
+    ("three_rules", "b(X,Y) :- d(X), e(Y), f(X). b(X,Y) :- f(Y), f(X). b(X,Y) :- d(X), e(Y).", False),
+    ("empty_then_rule", "b(X,Y) :- f(X), f(Y). b(X,Y) :- d(X), e(Y). b(X,Y) :- d(X), e(Y), f(X).", False),
 ]
 DEFAULT_C = "c(X) :- d(X), f(X)."
 
@@ -56,6 +60,8 @@ USES = [
     ("aggregate", "a :- 1 <= #sum {{ 1 : {L} }}."),
     ("weak", ":~ {L}. [1@1]"),
     ("loop", "g(X) :- {L}."),
+    ("via_top", "top(X,Y) :- b(X,Y). a :- top(X,Y), {L}."),
+    ("via_top_cond", "top(X,Y) :- b(X,Y). a :- d(Z), top(Z,Y) : {L}."),
 ]
 
 U0 = facts("d", [1, 2]) + facts("e", [1, 2]) + facts("f", [1, 2])
@@ -76,7 +82,7 @@ def jobs(tier: str):
                     prog = f"{dtext}{ctext}\n{utmpl.format(L=body)}"
                     meta = {"def": dname, "use": uname, "lits": list(lits)}
                     yield job("C08", prog, U0, [config(["cleanup"], IN0, [], oracle)], meta=meta)
-                    if len(lits) == 2:
+                    if len(lits) == 2 or uname.startswith("via_top"):
                         yield job("C08/inb", prog, UB, [config(["cleanup"], IN0 + [["b", 2]], [], oracle)], meta=meta)
 
     yield from dedupe(gen())
